@@ -227,7 +227,6 @@ def submodule_ignores_out():
 WITNESS = {
     'C03-typedef-outside-its-template-namespace': typedef_before_namespace,
     'C09-class-enum-variable-clash': class_enum_variable_clash,
-    'C16-submodule-output-path-ignores-out': submodule_ignores_out,
     'C12-two-token-terminals': two_token_terminals,
     'C12-comment-glued-to-default-value': comment_glued_to_default,
     'C01-qualifiers-in-instantiation-list-dropped': qualifiers_in_instantiation_list,
